@@ -1033,10 +1033,9 @@ func ConvertZToMinMaxAltitudekey(inputIndex int64, inputZoom int64, outputZoom i
 	if err != nil {
 		return 0, 0, err
 	}
-	upperBound, err := convertZToMinAltitudekey(inputIndex+1, inputZoom, outputZoom, zBaseExponent, zBaseOffset)
-	if err != nil {
-		return 0, 0, err
-	}
+	// inputIndex+1 is an exclusive bound: for the top index of inputZoom it does not exist as an index itself,
+	// and the key it maps to may lie one past the last key of outputZoom. Only the returned keys are validated.
+	upperBound := calculateAltitudekey(inputIndex+1, inputZoom, outputZoom, zBaseExponent, zBaseOffset)
 
 	// Determine the vertical index/indices to return.
 	// a) always return the lowerBound index. Regardless of the difference between the inputZoom and outputZoom,
@@ -1048,9 +1047,11 @@ func ConvertZToMinMaxAltitudekey(inputIndex int64, inputZoom int64, outputZoom i
 	maxAltitudeKey = upperBound - 1
 	if minAltitudeKey > maxAltitudeKey {
 		return minAltitudeKey, minAltitudeKey, nil
-	} else {
-		return minAltitudeKey, maxAltitudeKey, nil
 	}
+	if _, ok := validateIndexExists(maxAltitudeKey, outputZoom, false); !ok {
+		return 0, 0, errors.NewSpatialIdError(errors.InputValueErrorCode, "output index does not exist with given outputZoom, zBaseExponent, and zBaseOffset")
+	}
+	return minAltitudeKey, maxAltitudeKey, nil
 }
 
 func convertZToMinAltitudekey(inputIndex int64, inputZoom int64, outputZoom int64, zBaseExponent int64, zBaseOffset int64) (int64, error) {
@@ -1062,9 +1063,7 @@ func convertZToMinAltitudekey(inputIndex int64, inputZoom int64, outputZoom int6
 	}
 
 	// 2. Calculate outputIndex
-	outputIndex := common.CalculateArithmeticShift(inputIndex, -(inputZoom - consts.ZOriginValue))
-	outputIndex += zBaseOffset
-	outputIndex = common.CalculateArithmeticShift(outputIndex, (outputZoom - zBaseExponent))
+	outputIndex := calculateAltitudekey(inputIndex, inputZoom, outputZoom, zBaseExponent, zBaseOffset)
 
 	// 3. Check to make sure outputIndex exists in the output system
 	_, ok = validateIndexExists(outputIndex, outputZoom, false)
@@ -1075,6 +1074,13 @@ func convertZToMinAltitudekey(inputIndex int64, inputZoom int64, outputZoom int6
 
 	return outputIndex, nil
 
+}
+
+// calculateAltitudekey scales a z index (or exclusive bound) of inputZoom to the altitudekey system without range checks
+func calculateAltitudekey(inputIndex int64, inputZoom int64, outputZoom int64, zBaseExponent int64, zBaseOffset int64) int64 {
+	outputIndex := common.CalculateArithmeticShift(inputIndex, -(inputZoom - consts.ZOriginValue))
+	outputIndex += zBaseOffset
+	return common.CalculateArithmeticShift(outputIndex, (outputZoom - zBaseExponent))
 }
 
 // validateIndexExists 指定した(拡張)空間IDインデックスが指定ズームレベルにおいて存在するか確認する
